@@ -110,6 +110,14 @@ WithDuplicates ==
     \cup {G(t, <<DupPath(1, 3, at), PathK(5, 2)>>) : t \in {"MultiLineString", "Polygon"}, at \in 1..3}
     \cup {G(t, <<PathK(1, 2), DupPath(4, 2, at)>>) : t \in {"MultiLineString", "Polygon"}, at \in 1..2}
     \cup {G("MultiPolygon", << <<DupPath(2, 3, at)>>, <<PathK(6, 3), DupPath(1, 1, 1)>> >>) : at \in 1..3}
+(* the largest finite magnitudes of both signs in one geometry (ids 9 and 11: +/- the largest finite float64; the extent of
+   such a geometry is not a finite number although every coordinate is), on either axis, within a member and across members *)
+Extremes ==
+    {G(t, << <<9, 1>>, <<11, 3>> >>) : t \in {"MultiPoint", "LineString"}}
+    \cup {G(t, << <<3, 11>>, <<7, 9>>, <<1, 1>> >>) : t \in {"MultiPoint", "LineString"}}
+    \cup {G(t, << <<<<9, 9>>, <<3, 3>>>>, <<<<11, 11>>, <<7, 7>>>> >>) : t \in {"MultiLineString", "Polygon"}}
+    \cup {G("Polygon", << <<<<9, 9>>, <<11, 9>>, <<11, 11>>, <<9, 11>>>> >>),
+          G("MultiPolygon", << <<<<<<1, 9>>, <<3, 3>>, <<7, 1>>>>>>, <<<<<<1, 11>>, <<3, 7>>, <<7, 3>>>>>> >>)}
 (* C06 only: empty members after a non-empty first member ("at least one vertex in its first member", "arbitrary member counts") *)
 WithEmpties(maxm) ==
     {G(t, PathsK(1, v)) : t \in {"MultiLineString", "Polygon"}, v \in {w \in VecsFrom(2, maxm, {0, 2}) : w[1] > 0}}
